@@ -2,7 +2,7 @@
 (confluence of the actor net).  Tie: the real AsyncGraph is run K times per graph under different drivings, real-time
 factors and hook-perturbed schedules (random pauses at every submit / task start; starvation of one wrapper); all records
 must agree on their common prefix with each other and with the extracted model under random actor orders."""
-from . import lib, asynclib as al
+from . import lib, asynclib as al, c03
 
 
 def prefix_diff(a, b, what):
@@ -60,12 +60,16 @@ def run(chk, replay=None):
     variants["two_episodes"] = dict(drive="reset_step", episodes=2)      # same graph object, same initial state, second episode
     # the user thread is descheduled inside AsyncGraph.start() between starting one node and the next (hook point start:node)
     variants["start_pause"] = dict(drive="reset_step", perturb=dict(kind="points", points=["start:node"], ms=60))
+    # the same graph object re-configured (set_delay) between two episodes: the second episode is the function of the graph AS IT IS NOW (declared delays ->
+    # phases -> schedule) and of the initial state - not of what was evaluated or run before
+    variants["set_delay_between"] = dict(drive="reset_step", episodes=2, between="auto")
     starve_owners = ["n0", "n1", "n0>n1", "n1>n0"] if not quick else ["n0", "n0>n1"]
     for o in starve_owners: variants[f"starve:{o}"] = dict(drive="reset_step", perturb=dict(kind="starve", owner=o, ms=3))
     count = [0]
     def gen(rnd, max_nodes=4):
         count[0] += 1
         if count[0] % 3 == 2: return tie_cfg(rnd)
+        if count[0] % 3 == 1 and count[0] > 1: return c03.chain_cfg(rnd)
         cfg = al.gen_cfg(rnd, max_nodes=max_nodes, steps=rnd.choice([6, 8]))
         for nd in cfg["nodes"].values(): nd["period"] = max(nd["period"], 4)     # bounds the number of free-running steps per episode
         return cfg
@@ -76,6 +80,8 @@ def run(chk, replay=None):
         eps = {}
         for vn, rr in G["runs"].items():
             if "error" in rr and al.unsupported_hang(chk, cfg, rr): continue
+            if vn == "set_delay_between" and "error" not in rr:
+                c03.second_episode(chk, G, rr, "C04"); continue
             if "error" in rr:
                 chk.case((repr(cfg), vn), ["impl-error"], None)
                 chk.violation(f"async-run-fails:{rr['error'].split(':')[0].split(' ')[0]}", f"threaded run failed ({vn}): {rr['error'][:300]}", dict(cfg=cfg, variant=vn))
